@@ -83,6 +83,8 @@ def unjson_floats(value: Any) -> Any:
     """Inverse of jsonable for nested lists of floats."""
     if isinstance(value, list):
         return [unjson_floats(v) for v in value]
+    if isinstance(value, dict):
+        return {k: unjson_floats(v) for k, v in value.items()}
     if isinstance(value, str) and value in ("nan", "inf", "-inf"):
         return unjson_float(value)
     return value
